@@ -147,6 +147,9 @@ func (g *cgen) at() time.Time {
 	if g.classic || len(g.w.dates) == 0 || g.rng.Intn(3) > 0 {
 		return time.Time{}
 	}
+	if len(g.w.atDates) > 0 && g.rng.Intn(3) == 0 {
+		return g.w.atDates[g.rng.Intn(len(g.w.atDates))]
+	}
 	d := g.w.dates[g.rng.Intn(len(g.w.dates))]
 	if g.rng.Intn(2) == 0 {
 		d = d.Add(30 * time.Minute)
@@ -154,7 +157,7 @@ func (g *cgen) at() time.Time {
 	return d
 }
 
-func (g *cgen) pnLeaf(depth int) *search.Constraint {
+func (g *cgen) pnLeaf1(depth int) *search.Constraint {
 	pc := &search.PermanodeConstraint{}
 	k := g.rng.Intn(12)
 	if g.classic && k >= 7 {
@@ -182,8 +185,15 @@ func (g *cgen) pnLeaf(depth int) *search.Constraint {
 	case 6:
 		pc.Attr, pc.Value = "camliContent", g.refOfType("file").String()
 	case 7:
-		pc.Attr = []string{"camliContent", "camliMember", "camliPath:x"}[g.rng.Intn(3)]
-		pc.ValueInSet = g.tree(depth - 1)
+		pc.Attr = []string{"camliContent", "camliMember", "camliMember", "camliPath:x"}[g.rng.Intn(4)]
+		if g.rng.Intn(2) == 0 {
+			pc.ValueInSet = g.pnLogic(1 + g.rng.Intn(2))
+		} else {
+			pc.ValueInSet = g.tree(depth - 1)
+		}
+		if g.rng.Intn(4) == 0 {
+			pc.ValueAll = true
+		}
 	case 8:
 		pc.ModTime = g.timeC()
 	case 9:
@@ -206,10 +216,75 @@ func (g *cgen) pnLeaf(depth int) *search.Constraint {
 			pc.Attr, pc.Value = "tag", g.pick(g.w.tags)
 		}
 	}
-	if pc.Attr != "" {
+	if pc.Attr != "" || pc.Relation != nil || pc.SkipHidden {
 		pc.At = g.at()
 	}
 	return &search.Constraint{Permanode: pc}
+}
+
+// pnLeaf is pnLeaf1, sometimes with the features of a second one merged in ("a blob matches if it
+// matches all non-zero fields' predicates").
+func (g *cgen) pnLeaf(depth int) *search.Constraint {
+	c := g.pnLeaf1(depth)
+	if g.classic || g.rng.Intn(10) >= 3 {
+		return c
+	}
+	a, b := c.Permanode, g.pnLeaf1(depth).Permanode
+	if a.Attr == "" && b.Attr != "" {
+		a.Attr, a.Value, a.ValueMatches, a.ValueMatchesInt, a.NumValue, a.ValueAll, a.ValueInSet = b.Attr, b.Value, b.ValueMatches, b.ValueMatchesInt, b.NumValue, b.ValueAll, b.ValueInSet
+	} else if a.Attr != "" && a.Attr == b.Attr {
+		// a second value test on the same attribute
+		if a.NumValue == nil {
+			a.NumValue = b.NumValue
+		}
+		if a.ValueMatches == nil {
+			a.ValueMatches = b.ValueMatches
+		}
+		if a.ValueMatchesInt == nil {
+			a.ValueMatchesInt = b.ValueMatchesInt
+		}
+	}
+	if a.ModTime == nil {
+		a.ModTime = b.ModTime
+	}
+	if a.Time == nil {
+		a.Time = b.Time
+	}
+	if a.Relation == nil {
+		a.Relation = b.Relation
+	}
+	if b.SkipHidden {
+		a.SkipHidden = true
+	}
+	if a.At.IsZero() {
+		a.At = b.At
+	}
+	g.w.features["multi-field/permanode"]++
+	return c
+}
+
+// pnLogic: a logical tree over permanode attribute tests, as used inside valueInSet: every
+// leaf reads another permanode's attribute values while the outer values are being matched.
+func (g *cgen) pnLogic(depth int) *search.Constraint {
+	if depth <= 0 {
+		switch g.rng.Intn(6) {
+		case 0:
+			return &search.Constraint{CamliType: schema.TypePermanode}
+		case 1:
+			return &search.Constraint{Permanode: &search.PermanodeConstraint{Attr: "tag", NumValue: g.intC(1, 2, 3)}}
+		case 2:
+			return &search.Constraint{Permanode: &search.PermanodeConstraint{Attr: "title", ValueMatches: g.strC(append(g.w.titles, "Title 1"))}}
+		case 3:
+			return &search.Constraint{Permanode: &search.PermanodeConstraint{Attr: "camliMember", ValueInSet: &search.Constraint{Permanode: &search.PermanodeConstraint{Attr: "tag", Value: g.pick(g.w.tags)}}}}
+		}
+		return &search.Constraint{Permanode: &search.PermanodeConstraint{Attr: "tag", Value: g.pick(g.w.tags)}}
+	}
+	op := []string{"and", "or", "xor", "not"}[g.rng.Intn(4)]
+	l := &search.LogicalConstraint{Op: op, A: g.pnLogic(depth - 1)}
+	if op != "not" {
+		l.B = g.pnLogic(depth - 1)
+	}
+	return &search.Constraint{Logical: l}
 }
 
 // pnOnlyTree: a constraint evaluated on related permanodes (relation sub-constraints).
@@ -228,7 +303,7 @@ func (g *cgen) pnOnlyTree(depth int) *search.Constraint {
 	return g.pnLeaf(depth)
 }
 
-func (g *cgen) dirC(depth int) *search.DirConstraint {
+func (g *cgen) dirC1(depth int) *search.DirConstraint {
 	dc := &search.DirConstraint{}
 	switch g.rng.Intn(6) {
 	case 0:
@@ -251,6 +326,35 @@ func (g *cgen) dirC(depth int) *search.DirConstraint {
 	return dc
 }
 
+// dirC is dirC1, sometimes with a second field set (recursiveContains stays alone: DESIGN A.2).
+func (g *cgen) dirC(depth int) *search.DirConstraint {
+	a := g.dirC1(depth)
+	if g.rng.Intn(10) >= 3 || a.RecursiveContains != nil {
+		return a
+	}
+	b := g.dirC1(depth)
+	if b.RecursiveContains != nil {
+		return a
+	}
+	if a.FileName == nil {
+		a.FileName = b.FileName
+	}
+	if a.TopFileCount == nil {
+		a.TopFileCount = b.TopFileCount
+	}
+	if a.BlobRefPrefix == "" {
+		a.BlobRefPrefix = b.BlobRefPrefix
+	}
+	if a.Contains == nil {
+		a.Contains = b.Contains
+	}
+	if a.ParentDir == nil {
+		a.ParentDir = b.ParentDir
+	}
+	g.w.features["multi-field/dir"]++
+	return a
+}
+
 func (g *cgen) containsSub(depth int) *search.Constraint {
 	switch g.rng.Intn(4) {
 	case 0:
@@ -268,7 +372,7 @@ func (g *cgen) containsSub(depth int) *search.Constraint {
 	return &search.Constraint{Logical: &search.LogicalConstraint{Op: []string{"and", "or"}[g.rng.Intn(2)], A: a, B: b}}
 }
 
-func (g *cgen) fileLeaf(depth int) *search.Constraint {
+func (g *cgen) fileLeaf1(depth int) *search.Constraint {
 	fc := &search.FileConstraint{}
 	k := g.rng.Intn(6)
 	if g.classic && k >= 4 {
@@ -297,7 +401,70 @@ func (g *cgen) fileLeaf(depth int) *search.Constraint {
 	return &search.Constraint{File: fc}
 }
 
+func (g *cgen) fileLeaf(depth int) *search.Constraint {
+	c := g.fileLeaf1(depth)
+	if g.rng.Intn(10) >= 3 {
+		return c
+	}
+	a, b := c.File, g.fileLeaf1(depth).File
+	if a.FileName == nil {
+		a.FileName = b.FileName
+	}
+	if a.FileSize == nil {
+		a.FileSize = b.FileSize
+	}
+	if a.MIMEType == nil {
+		a.MIMEType = b.MIMEType
+	}
+	if b.IsImage {
+		a.IsImage = true
+	}
+	if !a.WholeRef.Valid() {
+		a.WholeRef = b.WholeRef
+	}
+	if a.ParentDir == nil {
+		a.ParentDir = b.ParentDir
+	}
+	g.w.features["multi-field/file"]++
+	return c
+}
+
+// leaf is leaf1, sometimes with the non-zero fields of a second leaf merged into the same node.
 func (g *cgen) leaf(depth int) *search.Constraint {
+	a := g.leaf1(depth)
+	if g.rng.Intn(10) >= 3 {
+		return a
+	}
+	b := g.leaf1(depth)
+	if b.Anything {
+		a.Anything = true
+	}
+	if a.CamliType == "" {
+		a.CamliType = b.CamliType
+	}
+	if b.AnyCamliType {
+		a.AnyCamliType = true
+	}
+	if a.BlobRefPrefix == "" {
+		a.BlobRefPrefix = b.BlobRefPrefix
+	}
+	if a.File == nil {
+		a.File = b.File
+	}
+	if a.Dir == nil {
+		a.Dir = b.Dir
+	}
+	if a.BlobSize == nil {
+		a.BlobSize = b.BlobSize
+	}
+	if a.Permanode == nil {
+		a.Permanode = b.Permanode
+	}
+	g.w.features["multi-field/constraint"]++
+	return a
+}
+
+func (g *cgen) leaf1(depth int) *search.Constraint {
 	switch k := g.rng.Intn(20); {
 	case k < 7:
 		return g.pnLeaf(depth)
@@ -381,6 +548,53 @@ func (g *cgen) directed() []*search.Constraint {
 	}
 	out = append(out, &search.Constraint{Permanode: &search.PermanodeConstraint{Attr: "camliMember", ValueInSet: typed("typeA")}},
 		&search.Constraint{Permanode: &search.PermanodeConstraint{Attr: "camliMember", ValueAll: true, ValueInSet: &search.Constraint{Permanode: &search.PermanodeConstraint{Attr: "tag", NumValue: &search.IntConstraint{Min: 1}}}}})
+	// valueInSet whose sub-query is a LOGICAL tree over permanode attribute tests, on candidates
+	// with several values (each leaf reads another permanode's values while the outer ones are
+	// being matched)
+	not := func(a *search.Constraint) *search.Constraint {
+		return &search.Constraint{Logical: &search.LogicalConstraint{Op: "not", A: a}}
+	}
+	inSet := func(attr string, all bool, sub *search.Constraint) *search.Constraint {
+		return &search.Constraint{Permanode: &search.PermanodeConstraint{Attr: attr, ValueAll: all, ValueInSet: sub}}
+	}
+	for i, t := range g.w.tags {
+		t2 := g.w.tags[(i+3)%len(g.w.tags)]
+		out = append(out,
+			inSet("camliMember", false, and(pn, tag(t))),
+			inSet("camliMember", i%2 == 0, or(tag(t), tag(t2))),
+			inSet("camliMember", i%2 == 1, not(tag(t))),
+			inSet("camliMember", false, and(tag(t), not(tag(t2)))))
+	}
+	out = append(out,
+		inSet("camliMember", true, and(pn, &search.Constraint{Permanode: &search.PermanodeConstraint{Attr: "tag", NumValue: &search.IntConstraint{Min: 1}}})),
+		inSet("camliPath:x", false, or(tag("a"), typed("typeA"))),
+		inSet("camliMember", false, inSet("camliMember", false, and(pn, tag("a")))))
+	// attribute tests `at` the instant a repeated value was removed (and a second later)
+	for i, ac := range g.w.atCases {
+		if i >= 6 {
+			break
+		}
+		for _, at := range []time.Time{ac.del, ac.del.Add(time.Second)} {
+			one, two := int64(1), int64(2)
+			pcs := []*search.PermanodeConstraint{
+				{Attr: ac.attr, Value: ac.value},
+				{Attr: ac.attr, NumValue: &search.IntConstraint{Equals: &one}},
+				{Attr: ac.attr, NumValue: &search.IntConstraint{Min: two}},
+				{Attr: ac.attr, NumValue: &search.IntConstraint{ZeroMax: true}},
+				{Attr: ac.attr, ValueAll: true, ValueMatches: &search.StringConstraint{HasPrefix: ac.value[:1]}},
+				{Attr: ac.attr, ValueMatches: &search.StringConstraint{Equals: ac.value}},
+			}
+			if ac.attr == "camliMember" {
+				pcs = append(pcs,
+					&search.PermanodeConstraint{Attr: ac.attr, ValueInSet: &search.Constraint{BlobRefPrefix: ac.value}},
+					&search.PermanodeConstraint{Attr: ac.attr, ValueAll: true, ValueInSet: not(&search.Constraint{BlobRefPrefix: ac.value})})
+			}
+			for _, pc := range pcs {
+				pc.At = at
+				out = append(out, &search.Constraint{Permanode: pc})
+			}
+		}
+	}
 	return out
 }
 
